@@ -1120,7 +1120,8 @@ MANIFEST = dict(
          "element row, adjustments within bounds, fractions >= 0, final fraction 1, dissolve/precipitate signs), adjustment_within_declared, "
          "mbRes_delta_form, element_entry_reaches_all_rows / unnamed_row_keeps_default (tidy_inverse: a -balances entry naming a redox element reaches "
          "every valence-state row), minimal_antichain(_fold) (any enumeration order, any exact LP oracle: reported -minimal models form an antichain; "
-         "proved on the actual loop structure by invariant), range_contains_value. Obligations over generated data: my_array/delta of the real "
+         "proved on the actual loop structure by invariant), range_contains_value, satB_sound / range_brackets_feasible_model / range_silent_criterion (a feasible reported vector is bracketed by the true "
+         "range optima), checkIso_sound / satisfies_isoBalanced (isotope balances and ratio uncertainties). Obligations over generated data: my_array/delta of the real "
          "setup_inverse = setupMatrix/signOf on the parsed problem at 1e-12; every reported model (inv_delta1, min_delta, max_delta read "
          "in-process) passes checkModel with totals from an independent speciation and with the uncertainties DECLARED IN THE INPUT TEXT (read "
          "independently by c18.read_declared: -uncertainty / -balances, element name -> all valence states, per-solution lists, padding, "
@@ -1129,5 +1130,6 @@ MANIFEST = dict(
          "counters of solve_inverse; -minimal antichain on reported bit sets.",
     note="Trusted: Lean kernel, harness/ph_inverse.cpp (friend access, resolution of reaction tokens to rows), tools/props/c18.py "
          "(tolerances: matrix 1e-12 rel, balances max(1e-8, 1e4*toler), ranges max(1e-6, 1e4*toler)). cl1 is an oracle (not verified); "
-         "isotope rows/columns are not modelled (ex18-type problems are counted only); INVERSE_CL1MP is not compiled in. Known findings: range-lp-error, cl1-unverified, range-silent, range-cap; new: minimal-inconsistent-lp.",
+         "isotope rows/columns are modelled (set-up tie, checkIso); resolution of solution/phase isotope data to masters is done in the harness; "
+         "INVERSE_CL1MP is not compiled in. Known findings: range-lp-error, cl1-unverified, range-silent, range-cap; new: minimal-inconsistent-lp.",
 )
